@@ -62,11 +62,12 @@ def native_replay(C, pid, fc, ob, extra=None, override=None):
     if not rp or fc is None or not fc.file:
         return {"ok": False, "error": "no concrete input tree for this obligation"}
     real_classes = {}
-    for cname, spec in C.classes.items():
+    own = getattr(fc, "cset", None) or C           # the set the function belongs to (an extra set brings its own classes)
+    for cname, spec in list(C.classes.items()) + list(own.classes.items()):
         if spec.file:
             real_classes[cname] = spec.file
     requires_of = {}
-    for k, f2 in C.fns.items():
+    for k, f2 in list(C.fns.items()) + [kv for kv in own.fns.items() if kv[0] not in C.fns]:
         if f2.requires and all(isinstance(t, str) for _, t in f2.requires):
             if f2.file:
                 try:
